@@ -114,9 +114,85 @@ def gen_target(rng, n):
     return rng.choice([None, None, 0, n - 1, n, n + 5, rng.randint(0, max(1, n)), max(0, n // 2)])
 
 
+def perturb_sources(rng, e):
+    """the same entry as seen on another chip: same key, mask and route, other source directions"""
+    route = e[0]
+    style = rng.choice(["through", "none", "other", "same"])
+    if style == "same":
+        return [route, e[1], e[2], list(e[3])]
+    if style == "none":
+        return [route, e[1], e[2], [None]]
+    return [route, e[1], e[2], gen_sources(rng, route, style)]
+
+
+def gen_seq(rng, u):
+    """several minimiser calls in one interpreter; tables after the first are seeded (by the driver) with
+    the key-masks of merged entries produced by earlier calls, given another route, among fresh entries"""
+    steps = []
+    for k in range(rng.choice([2, 2, 3])):
+        n = rng.choice([2, 3, 4, 5, 6, 8])
+        st = dict(op=rng.choice(["oc_min", "oc_min", "mt"]), table=gen_table(rng, u, "sorted", n),
+                  target=rng.choice([None, None, None, max(1, n // 2), n]), seed_route=None)
+        if k > 0:
+            st["seed_route"] = rng.choice(ROUTE_POOL)
+            st["seed_sources"] = rng.choice([[None], [rng.randrange(6)]])
+            st["seed_n"] = rng.choice([1, 1, 2, 3])
+            # fully specified entries of one other route: their merges cover parts of the seeded cubes
+            route = rng.choice([r for r in ROUTE_POOL if r != st["seed_route"]])
+            st["table"] = [[route, k_, m_, gen_sources(rng, route, "")]
+                           for k_, m_ in (gen_pattern(rng, u, rng.choice([0.0, 0.0, 0.2])) for _ in range(n))]
+        steps.append(st)
+    return steps
+
+
+# the shape of a table on which an up-check that ignored intervening members of the merge would go
+# wrong (0101, 0X00, X000, 1X11 with one route and different sources; 1XXX with another route): bit
+# roles are permuted and placed anywhere, values are flipped, routes and sources drawn at random
+M3_SHAPE = [("0101", 0), ("0X00", 0), ("X000", 0), ("1X11", 0), ("1XXX", 1)]
+
+
+def gen_family(rng, u):
+    pos = list(u["pos"][:4])
+    rng.shuffle(pos)
+    flip = [rng.random() < 0.5 for _ in range(4)]
+    routes = rng.sample([r for r in ROUTE_POOL if r], 2)
+    shape = [list(x) for x in M3_SHAPE]
+    if rng.random() < 0.4:                       # a perturbed variant: one character changed
+        i, j = rng.randrange(len(shape)), rng.randrange(4)
+        s_ = list(shape[i][0])
+        s_[j] = rng.choice("01X")
+        shape[i][0] = "".join(s_)
+    t = []
+    for pat, ri in shape:
+        key, mask = u["bkey"], u["bmask"]
+        for j, ch in enumerate(pat):
+            if ch != "X":
+                mask |= 1 << pos[j]
+                if (ch == "1") != flip[j]:
+                    key |= 1 << pos[j]
+        t.append([routes[ri], key, mask, gen_sources(rng, routes[ri], rng.choice(["", "through"]))])
+    if rng.random() < 0.3:
+        t.append(gen_entry(rng, dict(u, pos=pos), 0.3, routes, 0.2))
+    t.sort(key=generality)
+    return t
+
+
 def gen_case(rng, i):
     u = gen_universe(rng)
-    op = rng.choice(["rde", "rde", "oc_min", "oc_min", "oc_min", "oc_min", "oc", "oc", "mt", "mt", "mts"])
+    op = rng.choice(["rde", "rde", "oc_min", "oc_min", "oc_min", "oc_min", "oc", "oc", "mt", "mt", "mts",
+                     "seq", "family"])
+    if op == "seq":
+        u["pos"] = u["pos"][:rng.choice([3, 4, 4, 5])]
+        u["bmask"] |= ~sum(1 << b for b in u["pos"]) & M32 if rng.random() < 0.5 else 0
+        u["bkey"] &= u["bmask"]
+        return dict(op="seq", kind="sorted", nv=len(u["pos"]), steps=gen_seq(rng, u))
+    if op == "family":
+        t = gen_family(rng, u)
+        op2 = rng.choice(["oc_min", "oc_min", "mt", "mts"])
+        tg = rng.choice([None, None, len(t) - 1, len(t) - 2, 2])
+        if op2 == "mts":
+            return dict(op="mts", kind="family", nv=4, tables=[[[0, 0], t]], targets=tg)
+        return dict(op=op2, kind="family", nv=4, table=t, target=tg)
     kind = rng.choice(["sorted", "sorted", "orth"])
     if op == "rde":
         kind = rng.choice(["sorted", "orth", "any", "any", "malformed"])
@@ -127,6 +203,15 @@ def gen_case(rng, i):
         rng.shuffle(chips)
         chips = chips[:rng.randint(1, 3)]
         c["tables"] = [[chip, gen_table(rng, u, kind, rng.choice([0, 1, 2, 3, 5, 8, 12]))] for chip in chips]
+        clones = rng.random() < 0.5
+        if clones:
+            # the same nets seen on several chips (source chip, transit chips): tables equal in keys, masks
+            # and routes that differ only in the source directions
+            c["kind"] = kind + "-clones"
+            base = gen_table(rng, u, kind, rng.choice([1, 2, 3, 4, 6, 8]))
+            chips = [[x, y] for x in range(2) for y in range(2)][:rng.randint(2, 4)]
+            rng.shuffle(chips)
+            c["tables"] = [[chip, [perturb_sources(rng, e) for e in base]] for chip in chips]
         how = rng.choice(["none", "int", "dict", "dict"])
         if how == "none":
             c["targets"] = None
@@ -134,6 +219,9 @@ def gen_case(rng, i):
             c["targets"] = rng.choice([0, 1, 2, 4, 8, 100])
         else:
             c["targets"] = [[chip, gen_target(rng, len(t))] for chip, t in c["tables"]]
+            if clones and rng.random() < 0.6:      # the same target on every chip
+                same = c["targets"][0][1]
+                c["targets"] = [[chip, same] for chip, _ in c["targets"]]
         return c
     c["table"] = gen_table(rng, u, kind, n)
     c["target"] = gen_target(rng, n)
@@ -295,7 +383,13 @@ def oracle(c, out):
             if why:
                 return "%s (chip %r)" % (why, chip)
         return None
-    O = canon_in(c["table"])
+    if op == "seq":
+        for i, (st, (O, r)) in enumerate(zip(c["steps"], out[1])):
+            why = oracle(dict(op=st["op"], table_canon=O, target=st["target"]), r)
+            if why:
+                return "%s (call %d of %d in one interpreter)" % (why, i + 1, len(c["steps"]))
+        return None
+    O = c["table_canon"] if "table_canon" in c else canon_in(c["table"])
     if op == "oc":
         rnd = out[1][0]
         spec = c["rounds"][0]
@@ -410,7 +504,13 @@ def model_exprs(c, out):
         else:
             lit, val = "TablesOther", None
         return [("minimise_tables", "minimise_tables %s %s" % (ts, tgl), lit, "outcome_eqb", val)]
-    O = coq_table(canon_in(c["table"]))
+    if op == "seq":
+        exprs = []
+        for i, (st, (O, r)) in enumerate(zip(c["steps"], out[1])):
+            for label, call, lit, eqb, val in model_exprs(dict(op=st["op"], table_canon=O, target=st["target"]), r):
+                exprs.append(("%s (call %d in one interpreter)" % (label, i + 1), call, lit, eqb, val))
+        return exprs
+    O = coq_table(c["table_canon"] if "table_canon" in c else canon_in(c["table"]))
     if op == "oc":
         exprs = []
         cur, al = canon_in(c["table"]), []
@@ -436,6 +536,8 @@ def model_exprs(c, out):
 def nontrivial(c, out):
     if out[0] in ("other", "hang"):
         return False
+    if c["op"] == "seq":
+        return any(len(O) >= 3 and r[0] == "ok" and len(r[1]) < len(O) for O, r in out[1])
     ts = [t for _, t in c["tables"]] if c["op"] == "mts" else [c["table"]]
     for t in ts:
         routes = [tuple(e[0]) for e in t]
@@ -483,8 +585,13 @@ def run(chk, args):
     for c, o in zip(cases, outs):
         chk.count("op:" + c["op"])
         chk.count("kind:" + c["kind"])
-        chk.count("outcome:" + (o[0] if o[0] != "rounds" else "rounds:" + "/".join(r[0] for r in o[1])))
-        if c["op"] != "mts":
+        chk.count("outcome:" + (o[0] if o[0] not in ("rounds", "seq") else
+                                o[0] + ":" + "/".join(r[0] if o[0] == "rounds" else r[1][0] for r in o[1])))
+        if c["op"] == "seq":
+            for st, (O, r) in zip(c["steps"], o[1]):
+                if st["seed_route"] is not None and len(O) > len(st["table"]):
+                    chk.count("seq:call-seeded-with-earlier-merge-products")
+        elif c["op"] != "mts":
             chk.count("entries:%d" % len(c["table"]))
             chk.count("target:" + ("none" if c["target"] is None else
                                    "0" if c["target"] == 0 else
@@ -557,6 +664,9 @@ def run(chk, args):
                             "streams: sorted by generality (overlapping), orthogonal (shuffled), any order and "
                             "malformed ('!' bits) for default-route removal only; targets None/0/len-1/len/above/"
                             "random; operations rde, oc_minimise, ordered_covering x2 rounds with aliases, "
-                            "minimise_table, minimise_tables (None/int/dict); thorough adds every sorted table of "
+                            "minimise_table, minimise_tables (None/int/dict; half of them with chips whose tables are copies differing "
+                            "only in sources), sequences of 2-3 calls in one interpreter whose later tables contain the "
+                            "key-masks of earlier merge products, a directed family of overlapping same-route entries with "
+                            "different sources around an evicting second down-check; thorough adds every sorted table of "
                             "<= 3 entries over 2 bits; non-trivial = a table of >= 3 entries with a repeated route or a "
                             "default-routable entry; distinct by hash of the whole case")
